@@ -54,8 +54,8 @@ SHAPES = [
 
 def cases(tier, seed):
     b = BOUNDS[tier]
-    out = [dict(c, part='A1') for c in F.configs(b['max_n'], F.CLASSES_2D, l_max=b['l_max_2d'])]
-    out += [dict(c, part='A1') for c in F.configs(b['max_n'], F.CLASSES_3D, l_max=b['l_max_3d'])]
+    out = [dict(c, part='A1') for c in F.configs(b['max_n'], F.CLASSES_2D, l_max=b['l_max_2d'], used=True)]
+    out += [dict(c, part='A1') for c in F.configs(b['max_n'], F.CLASSES_3D, l_max=b['l_max_3d'], used=True)]
     for sh in range(b['user_shapes']):
         out.append({'part': 'A2', 'n': 1, 'shape': sh, 'first': None})
         out.append({'part': 'A2', 'n': 2, 'shape': sh, 'first': None})
@@ -70,7 +70,8 @@ def key_of(cfg, kind, **kw):
     d = cfg.get('deformation')
     k = {'part': 'A1', 'kind': kind, 'cls': cfg['cls'], 'size': list(cfg['size']),
          'square': len(set(cfg['size'])) == 1, 'deformation': d[0] if d else None,
-         'axis': (d[1].get('deformation_axis', 'default') if d else None)}
+         'axis': (d[1].get('deformation_axis', 'default') if d else None),
+         'object': 'used' if cfg.get('pre') else 'fresh'}
     k.update(kw)
     return k
 
@@ -140,6 +141,34 @@ def eval_library(cfg):
                 bad('from_bsf(sparse row)!=op', row=i)
         except Exception as exc:
             bad('conversion-raises', row=i, exc=type(exc).__name__, msg=str(exc)[:100])
+    # sparse rows as sparse arithmetic produces them (unsorted indices, explicitly stored zeros)
+    try:
+        from scipy.sparse import csr_matrix as _csr
+        pairs = 0
+        for i in range(m):
+            for j in range(i + 1, m):
+                if not (H[i] & H[j] or ((H[i] >> n) & (H[j] & ((1 << n) - 1))) or ((H[j] >> n) & (H[i] & ((1 << n) - 1)))):
+                    continue
+                pr = Hm[i] + Hm[j]
+                pr.data %= 2
+                want = H[i] ^ H[j]
+                ref_op = {qc[t]: ch for t, ch in enumerate(gf2.int_to_pauli_string(want, n)) if ch != 'I'}
+                if code.from_bsf(pr) != ref_op:
+                    bad('from_bsf(sparse sum of two generators) wrong', rows=[i, j],
+                        sorted_indices=bool(pr.has_sorted_indices))
+                pairs += 1
+                if pairs >= 12:
+                    break
+            if pairs >= 12:
+                break
+        # every single-qubit Y as a csr row with its two columns stored in descending order
+        for i in range(min(n, 40)):
+            r = _csr((np.array([1, 1], dtype='uint8'), np.array([n + i, i]), np.array([0, 2])), shape=(1, 2 * n))
+            if code.from_bsf(r) != {qc[i]: 'Y'}:
+                bad('from_bsf(sparse row with unsorted indices) wrong', qubit=i, got=str(code.from_bsf(r)))
+                break
+    except Exception as exc:
+        bad('conversion-raises', exc=type(exc).__name__, msg=str(exc)[:100])
     # logicals: images of the operator dicts
     try:
         for nm, getter, mat in (('x', code.get_logicals_x, code.logicals_x), ('z', code.get_logicals_z, code.logicals_z)):
@@ -318,6 +347,21 @@ def eval_user(case):
                         if code.from_bsf(vec) != op or code.from_bsf(vec.reshape(1, -1)) != op:
                             kind = 'from_bsf-not-inverse'
                             break
+                        nz = [t for t in range(2 * n) if (v >> t) & 1]
+                        if nz:
+                            from scipy.sparse import csr_matrix as _csr
+                            rrev = _csr((np.ones(len(nz), dtype='uint8'), np.array(nz[::-1]), np.array([0, len(nz)])),
+                                        shape=(1, 2 * n))
+                            zero_col = [t for t in range(2 * n) if not (v >> t) & 1]
+                            cols = nz + zero_col[:1]
+                            rzero = _csr((np.array([1] * len(nz) + [0] * len(zero_col[:1]), dtype='uint8'),
+                                          np.array(cols), np.array([0, len(cols)])), shape=(1, 2 * n))
+                            if code.from_bsf(rrev) != op:
+                                kind = 'from_bsf(sparse row with unsorted indices) wrong'
+                                break
+                            if code.from_bsf(rzero) != op:
+                                kind = 'from_bsf(sparse row with explicit zero) wrong'
+                                break
                         s = gf2.vec_to_int(code.measure_syndrome(vec))
                         if s != gf2.syndrome(ref, v, n):
                             kind = 'syndrome-differs'
